@@ -98,7 +98,7 @@ def make_ops():
         for o in ("+n", "n-", "*n", "n/", "**n", "0+", "+0", "sum1", "sum2", "*1", "1*", "/1", "**1", "-0"):
             A(dict(op="num", x=x, o=o, dest=2))
     for x in (0, 1, 3, 4):
-        for o in ("neg", "abs", "absm", "sign", "copy", "full_like"):
+        for o in ("neg", "abs", "absm", "sign", "copy", "full_like", "full_like_arr"):
             A(dict(op="un", x=x, o=o, dest=2))
     for x, how, arg in ((0, "sum_to", "ca"), (0, "sum_to", "abc"), (0, "sum_to", "cba"), (0, "sum_to", ""), (1, "sum_to", "ca"), (4, "sum_to", "a"), (0, "sum_over", "b"), (0, "sum_over", ""), (3, "sum_to", ""), (0, "cumsum", "b"), (4, "cumsum", "d"), (0, "shares", "b"), (0, "shares", "abc"), (4, "shares", "d")):
         A(dict(op="reduce", x=x, how=how, arg=arg, dest=2))
@@ -224,7 +224,7 @@ def apply_op(st, op, check):
             }[op["o"]]()
         if name == "un":
             x = r[op["x"]]
-            return {"neg": lambda: -x, "abs": lambda: abs(x), "absm": lambda: x.abs(), "sign": lambda: x.sign(), "copy": lambda: x.copy(), "full_like": lambda: FlodymArray.full_like(x, 2.5)}[op["o"]]()
+            return {"neg": lambda: -x, "abs": lambda: abs(x), "absm": lambda: x.abs(), "sign": lambda: x.sign(), "copy": lambda: x.copy(), "full_like": lambda: FlodymArray.full_like(x, 2.5), "full_like_arr": lambda: FlodymArray.full_like(x, x.values)}[op["o"]]()
         if name == "reduce":
             probe_values = False  # the property lists copy, arithmetic, cast_to, full_like and slice reads
             x = r[op["x"]]
@@ -497,6 +497,27 @@ def build_objects(op, extra_inputs):
                     arrays[k].dims.drop("z", inplace=True)
             if leaked:
                 raise AssertionError(f"INPUT-CHANGED: after building the stock, array(s) {leaked} share their dimension set with {'the DimensionSet handed in' if owner is dims else 'the stock'} (an in-place edit there reaches them)")
+        # compute() writes the results; the driver it was given (prescribed stock / inflow) stays as it was -
+        # over (t, p) and over time alone, with either solver
+        dims1 = DimensionSet(dim_list=[T])
+        drv1 = StockArray(dims=dims1, values=np.array([3.0, 5.0, 6.0]))
+        for dd, drv in ((dims, inflow), (dims1, drv1)):
+            for solver in (("manual", "lapack") if op["cls"] == "StockDrivenDSM" else (None,)):
+                kw2 = dict(dims=dd)
+                if op["cls"] != "SimpleFlowDrivenStock":
+                    kw2["lifetime_model"] = flodym.NormalLifetime(dims=dd, mean=2.0, std=0.5)
+                if solver:
+                    kw2["solver"] = solver
+                which = "stock" if op["cls"] == "StockDrivenDSM" else "inflow"
+                kw2[which] = drv
+                before = drv.values.copy()
+                s2 = cls(**kw2)
+                s2.compute()
+                if not np.array_equal(drv.values, before):
+                    raise AssertionError(f"INPUT-CHANGED: compute() of {op['cls']}{'' if not solver else ' (' + solver + ')'} over {dd.letters} changed the {which} array it was built from")
+                if not np.array_equal(getattr(s2, which).values, before):
+                    raise AssertionError(f"INPUT-CHANGED: compute() of {op['cls']}{'' if not solver else ' (' + solver + ')'} over {dd.letters} changed its own driver ({which}) array")
+        verify("compute")
         return None
     # system + exports
     procs = flodym.make_processes(["sysenv", "use"])
